@@ -139,3 +139,9 @@ type constSource struct{ x int64 }
 
 func (s *constSource) Int63() int64    { s.x = (s.x*6364136223846793005 + 1442695040888963407) & (1<<63 - 1); return s.x }
 func (s *constSource) Seed(seed int64) { s.x = seed }
+
+func newDuplexWith(data []byte) *duplex {
+	d := newDuplex()
+	d.in.data = data
+	return d
+}
